@@ -105,9 +105,20 @@ def sample_cases(cases, n=3, pred=None):
 
 
 def record_and_validate(rep, pid, mode, sessions, elems=30, name=None, damage=8):
-    """impl -> spec at the level of the property: random sessions validated by SchemaTrace in the given mode."""
+    """impl -> spec at the level of the property: random sessions validated by SchemaTrace in the given mode.
+    For C01 / C03 the final tree of every session is also rendered and judged by RenderTrace: the *rendered* schema
+    (which element is typed String, which gets a struct with a text field, the Option / Vec wrappers) must reflect
+    the tree, whatever the character data of the documents was."""
     trace = os.path.join(c.OUT, "traces", "%s-schema.ndjson" % pid)
-    t = c.harness(["schema-record", "--seed", c.seed(), "--n", sessions, "--elems", elems, "--damage", damage, "--out", trace])
+    rtrace = os.path.join(c.OUT, "traces", "%s-schema-render.ndjson" % pid)
+    extra = ["--render-trace", rtrace] if mode in ("C01", "C03") else []
+    t = c.harness(["schema-record", "--seed", c.seed(), "--n", sessions, "--elems", elems, "--damage", damage, "--out", trace] + extra)
+    if extra:
+        from . import render_common as rc
+        n, infos, st = c.judge_trace("RenderTrace", rtrace, "%s-schema-render" % pid)
+        events = c.read_ndjson(rtrace)
+        cnt, drift = rc.classify(rep, infos, {"FIELDS_DIFFER", "STRUCT_COUNT"}, events, "rendering of parsed sessions")
+        rep.add(parsed_trees_rendered=n, render_drift=drift)
     acc, rej, st = c.validate_trace("SchemaTrace", trace, name or "%s-schema" % pid, extra_env={"MODE": mode}, timeout=1500)
     rep.add(traces_validated_against_impl=acc, trace_events=t["events"], trace_calls=t["calls"], trace_states=st)
     return t, rej
